@@ -141,32 +141,43 @@ def run_farm(ctx, binp, clis, args, tag):
 
 
 def minimise(ctx, binp, clis, j):
-    """try the same file with a single type in -types; keep the first that still differs"""
+    """try the same file with a single type in -types; keep the first that still differs.  All
+    candidates (at most three) run in ONE farm, each as a package of its own, 3 + 3 generations:
+    bounded at roughly the cost of one definition of the main farm."""
     d = j["def"]
     if len(d["types"]) < 2 or j.get("cfg") == "sub" or d.get("batch"):
         return j
     cands = []
-    for k, t in enumerate(d["types"]):
+    for k, t in enumerate(d["types"][:3]):
         c = dict(d)
         c["types"] = [t]
         c["structs"] = [s for s in (d.get("structs") or []) if s["type"] == t]
         c["enums"] = [e for e in (d.get("enums") or []) if e["type"] == t]
         c["errors"] = [e for e in (d.get("errors") or []) if e["type"] == t]
+        # a package of its own
+        pkg = "%sm%d" % (d["pkg"], k)
+        c["pkg"] = pkg
+        c["source"] = re.sub(r"(?m)^package %s$" % re.escape(d["pkg"]), "package " + pkg, d["source"], count=1)
+        if d.get("extra"):
+            c["extra"] = {n: re.sub(r"(?m)^package %s$" % re.escape(d["pkg"]), "package " + pkg, t2, count=1)
+                          for n, t2 in d["extra"].items()}
+        c["first"] = False
         cands.append(c)
     p = os.path.join(ctx.scratch, "min_defs.json")
-    out = j
-    for k, c in enumerate(cands[:3]):      # one farm per candidate: same package name, separate work dirs
-        with open(p, "w") as f:
-            json.dump([c], f)
-        terms, jsons, err = run_farm(ctx, binp, clis, ["-defs", p, "-reps", 4, "-stale", "none"], "min%d" % k)
-        if err:
-            continue
-        bad, _, err = ctx.judge_cases(HEADER, "gd_case", "gd_judge", terms, shard=40, tag="min%d" % k)
-        if not err and bad and bad[0][1] == 1:
-            out = jsons[0]
+    with open(p, "w") as f:
+        json.dump(cands, f)
+    terms, jsons, err = run_farm(ctx, binp, clis, ["-defs", p, "-reps", 3, "-stale", "none"], "min")
+    if err:
+        return j
+    bad, _, err = ctx.judge_cases(HEADER, "gd_case", "gd_judge", terms, shard=40, tag="min")
+    if err:
+        return j
+    for i, code in bad:
+        if code == 1:
+            out = jsons[i]
             out["def"]["minimised_from_types"] = d["types"]
-            break
-    return out
+            return out
+    return j
 
 
 def locate_order(j):
